@@ -108,7 +108,8 @@ func NewScanner(tm *pgtype.Map, column Column, format FormatCode) (Scanner, erro
 		return nil, fmt.Errorf("unknown column type: %d", column.Oid)
 	}
 
-	return func(value []byte) (any, error) {
+	return func(value []byte) (_ any, err error) {
+		defer recoverDecode(&err)
 		return typed.Codec.DecodeValue(tm, typed.OID, int16(format), value)
 	}, nil
 }
